@@ -343,6 +343,8 @@ func kindOf(errText string, transferLike bool) string {
 }
 
 type snap struct {
+	pools    [3]sdkmath.Int // bonded pool, not-bonded pool, distribution module account
+	entries  string         // every unbonding-delegation and redelegation entry of the tracked accounts
 	digest   map[string]string
 	shares   map[[2]int]sdkmath.LegacyDec // (delegator, validator)
 	valTok   []sdkmath.Int
@@ -356,6 +358,19 @@ func (w *world) snapshot() snap {
 	for _, a := range w.accs {
 		sn.bals = append(sn.bals, w.s.App.BankKeeper.GetBalance(ctx, a, fxtypes.DefaultDenom).Amount)
 	}
+	sn.pools = [3]sdkmath.Int{w.moduleBal(stakingtypes.BondedPoolName), w.moduleBal(stakingtypes.NotBondedPoolName), w.moduleBal(distrtypes.ModuleName)}
+	var es []string
+	for _, a := range w.accs {
+		ubds, _ := w.s.App.StakingKeeper.GetUnbondingDelegations(ctx, a, 1000)
+		for _, u := range ubds {
+			es = append(es, u.String())
+		}
+		reds, _ := w.s.App.StakingKeeper.GetRedelegations(ctx, a, 1000)
+		for _, rd := range reds {
+			es = append(es, rd.String())
+		}
+	}
+	sn.entries = strings.Join(es, ";")
 	for _, name := range []string{stakingtypes.StoreKey, distrtypes.StoreKey, banktypes.StoreKey} {
 		d, _ := hx.DumpStore(ctx, w.s.App.GetKey(name))
 		sn.digest[name] = d
@@ -1079,6 +1094,45 @@ func (w *world) checkTransfer(name string, before snap, kind string, from, to, v
 		w.violate(fmt.Sprintf("%s changed the validator: tokens %s -> %s, shares %s -> %s", name, before.valTok[v], after.valTok[v], before.valShare[v], after.valShare[v]))
 		return class
 	}
+	// the chain around the transfer: no tokens move between or out of the staking pools, no unbonding / redelegation
+	// record changes, nothing changes at any other validator, the distribution module account pays exactly what the two
+	// parties receive
+	if !after.pools[0].Equal(before.pools[0]) || !after.pools[1].Equal(before.pools[1]) {
+		w.violate(fmt.Sprintf("%s moved tokens of the staking pools: bonded %s -> %s, not bonded %s -> %s", name, before.pools[0], after.pools[0], before.pools[1], after.pools[1]))
+		return class
+	}
+	if after.entries != before.entries {
+		w.violate(name + " changed an unbonding-delegation or redelegation record")
+		return class
+	}
+	for vi := range w.vals {
+		if vi == v {
+			continue
+		}
+		if !after.valTok[vi].Equal(before.valTok[vi]) || !after.valShare[vi].Equal(before.valShare[vi]) {
+			w.violate(fmt.Sprintf("%s at validator %d changed validator %d", name, v, vi))
+			return class
+		}
+		for d := range w.accs {
+			if !before.sh(d, vi).Equal(after.sh(d, vi)) {
+				w.violate(fmt.Sprintf("%s at validator %d changed the delegation of account %d at validator %d: %s -> %s", name, v, d, vi, before.sh(d, vi), after.sh(d, vi)))
+				return class
+			}
+		}
+	}
+	received := sdkmath.ZeroInt()
+	for d := range w.accs {
+		diff := after.bals[d].Sub(before.bals[d])
+		if d != from && d != to && !diff.IsZero() {
+			w.violate(fmt.Sprintf("%s between accounts %d and %d changed the balance of account %d by %s", name, from, to, d, diff))
+			return class
+		}
+		received = received.Add(diff)
+	}
+	if paid := before.pools[2].Sub(after.pools[2]); !paid.Equal(received) {
+		w.violate(fmt.Sprintf("%s: the distribution module account paid %s, the two parties received %s", name, paid, received))
+		return class
+	}
 	if from == to {
 		if !after.sh(from, v).Equal(before.sh(from, v)) {
 			w.violate(fmt.Sprintf("%s with from == to changed the delegation: shares %s -> %s while validator shares stay %s (transfer to oneself must change nothing)",
@@ -1144,8 +1198,85 @@ func (w *world) checkPayouts(name, kind string, from, to, v int, erf, ert *big.I
 // generator
 
 type gen struct {
-	w   *world
-	rng *rand.Rand
+	w     *world
+	rng   *rand.Rand
+	queue []string // lines of a multi-step scenario still to be emitted
+}
+
+// allowanceRace: one owner, two spenders, one or two validators, everything within one block: both spenders are
+// approved for ALL of the owner's whole shares at each validator, the first moves most of them, the second tries to
+// move all (must be refused: the shares are gone, its allowance must stay), then moves exactly the remainder; the same
+// interleaved at a second validator when the owner delegates there too (allowances are per validator).
+func (g *gen) allowanceRace() []string {
+	w, r := g.w, g.rng
+	us := g.users()
+	if len(us) < 3 {
+		return nil
+	}
+	type pos struct {
+		v     int
+		whole *big.Int
+	}
+	var owner int = -1
+	var ps []pos
+	for _, o := range r.Perm(len(us)) {
+		ps = nil
+		for v := 0; v < w.nVal; v++ {
+			if wh := g.sharesOf(us[o], v).TruncateInt().BigInt(); wh.Cmp(big.NewInt(2)) >= 0 {
+				ps = append(ps, pos{v, wh})
+			}
+		}
+		if len(ps) > 0 {
+			owner = us[o]
+			break
+		}
+	}
+	if owner < 0 {
+		return nil
+	}
+	var others []int
+	for _, u := range us {
+		if u != owner {
+			others = append(others, u)
+		}
+	}
+	r.Shuffle(len(others), func(i, j int) { others[i], others[j] = others[j], others[i] })
+	s1, s2 := others[0], others[1]
+	to := others[r.Intn(len(others))]
+	if r.Intn(5) == 0 {
+		to = owner // the two parties coincide: nothing moves, the allowance is still consumed
+	}
+	if len(ps) > 2 {
+		ps = ps[:2]
+	}
+	var lines []string
+	for _, p := range ps {
+		lines = append(lines, fmt.Sprintf("approve %d %d %d %s", owner, s1, p.v, p.whole), fmt.Sprintf("approve %d %d %d %s", owner, s2, p.v, p.whole))
+	}
+	type mv struct {
+		v       int
+		first   *big.Int
+		whole   *big.Int
+		remains *big.Int
+	}
+	var ms []mv
+	for _, p := range ps {
+		k := new(big.Int).Rand(r, new(big.Int).Rsh(p.whole, 1)) // 0 … whole/2 - 1 stay behind
+		ms = append(ms, mv{p.v, new(big.Int).Sub(p.whole, k), p.whole, k})
+	}
+	for _, m := range ms {
+		lines = append(lines, fmt.Sprintf("transferFrom %d %d %d %d %s", s1, owner, to, m.v, m.first))
+	}
+	for _, m := range ms {
+		lines = append(lines, fmt.Sprintf("transferFrom %d %d %d %d %s", s2, owner, to, m.v, m.whole))
+	}
+	for _, m := range ms {
+		if m.remains.Sign() > 0 {
+			lines = append(lines, fmt.Sprintf("transferFrom %d %d %d %d %s", s2, owner, to, m.v, m.remains))
+		}
+	}
+	w.out.Count(fmt.Sprintf("scenario:allowance-race/validators=%d", len(ps)))
+	return lines
 }
 
 func (g *gen) users() []int {
@@ -1235,6 +1366,17 @@ func (g *gen) pickTo(from int) int {
 
 func (g *gen) next() string {
 	w, r := g.w, g.rng
+	if len(g.queue) > 0 {
+		l := g.queue[0]
+		g.queue = g.queue[1:]
+		return l
+	}
+	if r.Intn(30) == 0 {
+		if ls := g.allowanceRace(); len(ls) > 0 {
+			g.queue = ls[1:]
+			return ls[0]
+		}
+	}
 	us := g.users()
 	v := r.Intn(w.nVal)
 	hs := g.holders(v)
